@@ -596,7 +596,10 @@ class Interp:
         ctx = self.ctx
         inv = ctx.invariants.get(self.loop_key(node, fr))
         it = self.eval(node.iter, fr)
-        if inv is not None:
+        from .seq import Chunk as _Chunk
+        concrete_iter = isinstance(it, (list, tuple, range, dict, str, bytes)) and not (
+            isinstance(it, (list, tuple)) and any(isinstance(e, _Chunk) for e in it))
+        if inv is not None and not concrete_iter:
             return self.for_with_invariant(node, fr, inv, it)
         n = 0
         from .seq import Chunk
